@@ -42,7 +42,8 @@ RULE = ("well-formed templates from a grammar-directed generator (text runs incl
         "triple-quoted strings and long trailing whitespace, def/block/call/page/include/namespace/inherit/text tags "
         "single- and multi-line with attribute values spanning lines, ## and <%doc> comments; LF or CRLF; leading blank "
         "lines) into which exactly ONE fault is planted at every candidate site: a Python syntax error at every binary "
-        "operator of every code line of every construct (10 construct kinds), and 31 structural fault classes at every "
+        "operator of every code line of every construct (10 construct kinds), 26 structural fault classes and 6 classes of "
+        "faults that only the compilation of the generated module finds, at every "
         "tag / control block / line gap; a case is distinct by (source text, fault); non-trivial = the fault is not on "
         "line 1 column 1")
 ASSUMPTIONS = [
@@ -53,8 +54,15 @@ ASSUMPTIONS = [
     "a control line construct (`% …`) begins at the start of its line (the lexer's regex includes the indentation), so "
     "its column is 1",
     "a template given as a string has no file name: filename None is accepted on the string path",
+    "reload paths: the edited file gets an mtime 60 s in the future (os.utime), so that the lookup's whole-second "
+    "comparison `_modified_time >= mtime` certainly sees it as newer; the good first version is rendered once "
+    "directly and once through the including parent before the edit",
+    "a filter on a continuation line of a multi-line filter list starts in column 1 (ArgumentList parses the list "
+    "as Python statements; an indented continuation outside brackets is not a well-formed template)",
 ]
 TRUSTED_EXTRA = [
+    "C11: tools/regen_errpos.py (handler types of TemplateLookup._check that convert into TemplateLookupException; "
+    "whether the handler around Template(...) in _load ends with a bare raise) -> Generated/ErrPos.lean",
     "C11: the probe lexer (subclass of mako.lexer.Lexer counting append_node calls) and the recording wrapper around "
     "mako.pyparser.parse in harness/props/C11.py",
     "C11: harness/c11_gen.py (ground truth = offsets in the mutated text; line/column recomputed from the text)",
@@ -744,7 +752,9 @@ def run_faults(ctx, impl, cases, stream_corr, stream_oracle, path_every, display
         ctx.violation(site, case_of(g, path=pk, **extra), detail, stream_oracle)
 
 
-# hand-written witnesses of the recorded findings and of the seeded-change classes (run first, every tier)
+# hand-written witnesses of the recorded findings and of layouts on which an off-by-one of the line arithmetic shows
+# (long trailing whitespace after short first code lines, multi-line filter lists, continuation lines, CRLF) - run
+# first, every tier
 def witness_cases():
     W = []
 
